@@ -671,3 +671,195 @@ func IsViolation(err error) (*vk.Violation, bool) {
 	ok := errors.As(err, &v)
 	return v, ok
 }
+
+// ---------- deletes and garbage collection (C04) ----------
+
+// DelBounds is the reduced boundary set used for delete bounds: every grid point, 1ns
+// after it, and 1ns before every second one (so all exact/inexact combinations occur).
+func DelBounds(grid []telem.TimeStamp) []telem.TimeStamp {
+	set := map[telem.TimeStamp]bool{}
+	for i, t := range grid {
+		set[t], set[t+1] = true, true
+		if i%2 == 1 {
+			set[t-1] = true
+		}
+	}
+	set[grid[len(grid)-1]+2*telem.SecondTS] = true
+	var out []telem.TimeStamp
+	for t := range set {
+		out = append(out, t)
+	}
+	sort.Slice(out, func(i, j int) bool { return out[i] < out[j] })
+	return out
+}
+
+// DelSets are the channel sets a delete can name.
+func (w *World) DelSets() map[string][]cesium.ChannelKey {
+	out := map[string][]cesium.ChannelKey{}
+	var data []cesium.ChannelKey
+	for _, k := range w.Cfg.Channels {
+		if k != T && k != T2 && IndexOf(k) == T {
+			data = append(data, k)
+		}
+	}
+	if len(data) > 0 {
+		out["d1"] = data[:1]
+	}
+	if len(data) > 1 {
+		out["dall"] = data
+	}
+	if w.has(T) {
+		out["idx"] = []cesium.ChannelKey{T}
+		out["all"] = append([]cesium.ChannelKey{T}, data...)
+	}
+	return out
+}
+
+// DelOps lists delete / gc ops (only when no session is open: a time-range delete is
+// refused while it overlaps an open writer's region, which is C05/C09's subject).
+func (w *World) DelOps() []string {
+	if w.Poisoned != "" || w.sess[0] != nil || w.sess[1] != nil {
+		return nil
+	}
+	var ops []string
+	bs := DelBounds(w.Grid)
+	var names []string
+	for n := range w.DelSets() {
+		names = append(names, n)
+	}
+	sort.Strings(names)
+	for _, n := range names {
+		for i := range bs {
+			for j := i + 1; j < len(bs); j++ {
+				ops = append(ops, fmt.Sprintf("del %s %d %d", n, i, j))
+			}
+		}
+	}
+	return append(ops, "gc", "rgc")
+}
+
+func (w *World) dataBytes() int64 {
+	var tot int64
+	for _, k := range w.Cfg.Channels {
+		infos, err := w.FS.List(fmt.Sprint(k))
+		if err != nil {
+			continue
+		}
+		for _, in := range infos {
+			if strings.HasSuffix(in.Name(), ".domain") && in.Name() != "index.domain" && in.Name() != "counter.domain" {
+				tot += in.Size()
+			}
+		}
+	}
+	return tot
+}
+
+func (w *World) content(k cesium.ChannelKey) ([]string, error) {
+	fr, err := w.DB.Read(Ctx, telem.TimeRangeMax, k)
+	if err != nil {
+		return nil, err
+	}
+	var got []string
+	for _, s := range fr.Get(k).Series {
+		got = append(got, Decode(k, s)...)
+	}
+	return got, nil
+}
+
+func (w *World) deleteModel(k cesium.ChannelKey, a, b telem.TimeStamp) {
+	for i, t := range w.Grid {
+		if a <= t && t < b {
+			delete(w.Ref[k], i)
+		}
+	}
+	var nd []dom
+	for _, d := range w.Doms[k] {
+		if !(a < d.e && d.s < b) {
+			nd = append(nd, d)
+			continue
+		}
+		if d.s < a {
+			nd = append(nd, dom{d.s, a})
+		}
+		if b < d.e {
+			nd = append(nd, dom{b, d.e})
+		}
+	}
+	w.Doms[k] = nd
+}
+
+// ApplyDel executes a delete or gc op.
+func (w *World) ApplyDel(op string) (string, error) {
+	f := strings.Fields(op)
+	if f[0] == "gc" || f[0] == "rgc" {
+		// rgc = close + reopen + gc: after a reopen no data file is held by the writer pool, so
+		// files below the size cap become collectable too
+		if f[0] == "rgc" {
+			if o, err := w.Apply("reopen"); err != nil {
+				return o, err
+			}
+		}
+		before := w.dataBytes()
+		if err := w.DB.VerifGarbageCollect(Ctx); err != nil {
+			return "", vk.Violationf("gc-error", "garbage collection failed: %v (model %s)", err, w.ModelCanon())
+		}
+		if w.dataBytes() < before {
+			return "ok-compacted", nil
+		}
+		return "ok-nothing-to-collect", nil
+	}
+	var i, j int
+	fmt.Sscan(f[2], &i)
+	fmt.Sscan(f[3], &j)
+	bs := DelBounds(w.Grid)
+	a, b := bs[i], bs[j]
+	chans := w.DelSets()[f[1]]
+	named := map[cesium.ChannelKey]bool{}
+	for _, c := range chans {
+		named[c] = true
+	}
+	// must the index delete be refused? (some dependant that is not itself being deleted
+	// first has committed samples in range)
+	mustRefuse := false
+	if named[T] {
+		for _, k := range w.Cfg.Channels {
+			if k != T && IndexOf(k) == T && !named[k] && len(w.Expected(k, a, b)) > 0 {
+				mustRefuse = true
+			}
+		}
+	}
+	err := w.DB.DeleteTimeRange(Ctx, chans, telem.TimeRange{Start: a, End: b})
+	desc := fmt.Sprintf("DeleteTimeRange(%v, [%s,%s))", chans, tsName(w, a), tsName(w, b))
+	if err == nil {
+		if mustRefuse {
+			return "", vk.Violationf("index-delete-accepted", "%s succeeded although a channel indexed by T still has samples in the range (model %s)", desc, w.ModelCanon())
+		}
+		for _, c := range chans {
+			w.deleteModel(c, a, b)
+		}
+		return "ok", nil
+	}
+	// refused or failed: every named channel must be either untouched or exactly deleted
+	// (the call deletes channel by channel); un-named channels are checked by the sweep
+	obs := "refused"
+	for _, c := range chans {
+		got, rerr := w.content(c)
+		if rerr != nil {
+			return "", vk.Violationf("read-error-after-failed-delete", "%s failed (%v) and channel %d is unreadable: %v", desc, err, c, rerr)
+		}
+		before := w.Expected(c, 0, telem.TimeStampMax)
+		if equal(got, before) {
+			continue
+		}
+		w.deleteModel(c, a, b)
+		after := w.Expected(c, 0, telem.TimeStampMax)
+		if !equal(got, after) {
+			return "", vk.Violationf("failed-delete-partial", "%s failed (%v) and left channel %d with %v: neither the previous content %v nor the deleted content %v", desc, err, c, got, before, after)
+		}
+		obs = "refused-partial"
+	}
+	if mustRefuse {
+		return obs + "-index-guard", nil
+	}
+	return obs + ":" + short(err), nil
+}
